@@ -19,8 +19,9 @@ assert subprocess.run(["git", "-C", "/repo", "status", "--porcelain", "--untrack
 for d in dirs:
     name = os.path.basename(d)
     meta = json.load(open(os.path.join(d, "meta.json")))
-    plist = [meta["breaks_property"]] if props in (None, "own") else props
-    if props is None:
+    ALL = ["C04", "C10", "C11", "C12", "C13", "C15", "C16", "C18", "C20"]
+    plist = (ALL if meta.get("benign") else [meta["breaks_property"]]) if props in (None, "own") else props
+    if props is None and not meta.get("benign"):
         plist = [meta["breaks_property"], "C13"] if meta["breaks_property"] != "C13" else ["C13"]
     r = subprocess.run(["git", "-C", "/repo", "apply", os.path.join(d, "patch.diff")])
     if r.returncode != 0:
